@@ -81,8 +81,10 @@ func verifH_C17_matrix() {
 		junks := []string{"x", "4x", "x4", "44", "", "0x4", "4.0"}
 		q = "EIO=" + junks[verifChoose(0, len(junks)-1)]
 	}
-	trKind := verifChoose(0, 3) // absent, polling, websocket, junk
+	trKind := verifChoose(0, 4) // absent, polling, websocket, junk, webtransport (a real transport name, but not one a plain HTTP request can open)
 	switch trKind {
+	case 4:
+		q += "&transport=webtransport"
 	case 1:
 		q += "&transport=polling"
 	case 2:
@@ -125,11 +127,14 @@ func verifH_C17_matrix() {
 	case sidKind == 0 && method != "GET":
 		verifAssert(w.status == 400 && verifErrCode(w) == 2, "a handshake with a method other than GET is answered with 400 and error code 2")
 		verifAssert(created == 0 && len(srv.store.sockets) == before, "an invalid request creates no session")
-	case sidKind == 0 && (trKind == 0 || trKind == 3):
+	case sidKind == 0 && (trKind == 0 || trKind == 3 || trKind == 4):
 		verifAssert(w.status == 400 && verifErrCode(w) == 0, "a handshake with an unknown transport is answered with 400 and error code 0")
 		verifAssert(created == 0 && len(srv.store.sockets) == before, "an invalid request creates no session")
 	case sidKind == 0 && trKind == 1:
 		verifAssert(w.status == 200 && created == 1 && len(srv.store.sockets) == before+1, "a valid polling handshake creates exactly one session")
+	case sidKind == 2 && trKind == 4:
+		verifAssert(w.status >= 400, "a plain HTTP request that names webtransport on a live session is refused (no panic, no upgrade)")
+		verifAssert(created == 0 && len(srv.store.sockets) == before, "an invalid request neither creates nor removes a session")
 	case sidKind == 2 && (trKind == 0 || trKind == 3):
 		verifAssert(w.status == 400, "a live session addressed with an unknown transport gets a protocol error")
 		verifAssert(created == 0 && len(srv.store.sockets) == before, "an invalid request neither creates nor removes a session")
